@@ -803,13 +803,29 @@ mutual
 /-- the layout invariants of expressions as `fromCst` builds them (`Lemmas/FragNFParse.lean`) -/
 def Expr.nfInv : Expr → Prop
   | .leaf _ t b a => t ≠ [';'] ∧ Alt b ∧ Alt a
-  | .list v ml inner b a => allNfInv v ∧ Alt inner ∧ Alt b ∧ Alt a ∧ nonLastClosed v ∧ (ml = false → allFlat v)
-  | .set v ml _ inner b a => allNfInv v ∧ Alt inner ∧ Alt b ∧ Alt a ∧ nonLastClosed v ∧ (ml = false → allFlat v)
+  | .list v _ inner b a => allNfInv v ∧ Alt inner ∧ Alt b ∧ Alt a ∧ nonLastClosed v
+  | .set v _ _ inner b a => allNfInv v ∧ Alt inner ∧ Alt b ∧ Alt a ∧ nonLastClosed v
   | .binding n v vg b a => n ≠ [';'] ∧ v.nfInv ∧ v.notBinding = true ∧ Alt b ∧ Alt (v.after ++ a) ∧ Alt v.after ∧
       (bindOnNewline vg v.before = false → v.before = [])
 def allNfInv : List Expr → Prop
   | [] => True
   | e :: rest => e.nfInv ∧ allNfInv rest
+end
+
+mutual
+/-- THE EXCLUSION of the spacing theorem: in a container written on one line no item has leading
+    trivia (a comment in front of it) and every item's trailing trivia ends with a comment.
+    (`cex_block_comment_after_opener`: `{ /* c */ a = 1; }` comes out as `{   /* c */⏎a = 1; }`.)
+    The second half always holds for what `fromCst` builds (nothing in a one-line container can
+    produce a layout marker); it is kept as a hypothesis to keep the parse-side proof short. -/
+def Expr.inlineClean : Expr → Prop
+  | .leaf .. => True
+  | .list v ml _ _ _ => (ml = false → allFlat v) ∧ allInlineClean v
+  | .set v ml _ _ _ _ => (ml = false → allFlat v) ∧ allInlineClean v
+  | .binding _ v _ _ _ => v.inlineClean
+def allInlineClean : List Expr → Prop
+  | [] => True
+  | e :: rest => e.inlineClean ∧ allInlineClean rest
 end
 
 /-- what the summary of a rendered expression looks like -/
@@ -910,9 +926,9 @@ theorem effAfter_true_notBinding {e : Expr} (h : e.notBinding = true) : e.effAft
   cases e <;> first | rfl | cases h
 
 mutual
-theorem rebuildAP_summ : (e : Expr) → e.ok → e.nfInv → ∀ (na : Bool) (i : Nat) (b : Bool),
+theorem rebuildAP_summ : (e : Expr) → e.ok → e.nfInv → e.inlineClean → ∀ (na : Bool) (i : Nat) (b : Bool),
     ExprS e na i b (summ (e.rebuildAP na i b))
-  | .leaf k t before after, hok, hinv, na, i, b => by
+  | .leaf k t before after, hok, hinv, _, na, i, b => by
     obtain ⟨ht, hb, ha⟩ := hok
     obtain ⟨hts, hab, haa⟩ := hinv
     have hb' := leafBefore_ok k t hb i b
@@ -924,9 +940,10 @@ theorem rebuildAP_summ : (e : Expr) → e.ok → e.nfInv → ∀ (na : Bool) (i 
     · rw [summ_append, indentP_summ, summ_tok]; simp [Summ.comb]
     · intro h; simp only [Expr.before] at h; subst h; exact leafBefore_nil ..
     · intro h; simp only [Expr.before] at h; rw [leafBefore_headCmt k t h]; exact h
-  | .list value ml inner before after, hok, hinv, na, i, b => by
+  | .list value ml inner before after, hok, hinv, hclean, na, i, b => by
     obtain ⟨hv, hin, hb, ha⟩ := hok
-    obtain ⟨hvi, hain, hab, haa, hnl, hflat⟩ := hinv
+    obtain ⟨hvi, hain, hab, haa, hnl⟩ := hinv
+    obtain ⟨hflat, hcl⟩ := hclean
     have ha' := ite_nil_ok na ha
     have hT := trailP_summ ha' (alt_ite_nil na haa) i
     have hop : summ [FP.tok ['[']] = .lexy [] (.tok ['[']) true [] := summ_tok _
@@ -945,14 +962,14 @@ theorem rebuildAP_summ : (e : Expr) → e.ok → e.nfInv → ∀ (na : Bool) (i 
     | cons v vs =>
       cases ml with
       | true =>
-        obtain ⟨lb, fb, tb, hbody, hfb, hlb, htb⟩ := joinNl_summ (v :: vs) hv hvi hnl (by simp) (i + 2)
+        obtain ⟨lb, fb, tb, hbody, hfb, hlb, htb⟩ := joinNl_summ (v :: vs) hv hvi hcl hnl (by simp) (i + 2)
         have hsol : Solid (joinP [FP.ws ['\n']] (rebuildAllP (v :: vs) (i + 2) false)) :=
           solid_joinP_ws _ _ (rebuildAllP_lex (v :: vs) hv _ _).2
         simp only [Expr.rebuildAP, if_true, Bool.not_true, multilineBlockP_eq, fmtP_lines hb.1, List.nil_append]
         exact exprS_of_wrap hb hab (block_items_summ hop hbody hsol hlb hfb htb ']' (by decide) i b true) hfo hT.1 hT.2
           (fun h => h) (fun h => h)
       | false =>
-        obtain ⟨f, hj, hf⟩ := joinSp_summ (v :: vs) hv hvi (hflat rfl) (by simp) i
+        obtain ⟨f, hj, hf⟩ := joinSp_summ (v :: vs) hv hvi hcl (hflat rfl) (by simp) i
         simp only [Expr.rebuildAP, Bool.false_eq_true, if_false, Bool.not_false, fmtP_lines hb.1]
         rw [show linesP i before ++ indentP i b ++ [FP.tok ['['], FP.ws [' ']] ++
               joinP [FP.ws [' ']] (rebuildAllP (v :: vs) i true) ++ [FP.ws [' '], FP.tok [']']] =
@@ -964,9 +981,10 @@ theorem rebuildAP_summ : (e : Expr) → e.ok → e.nfInv → ∀ (na : Bool) (i 
         simp only [Summ.comb, List.nil_append, List.append_nil, Bool.true_and, Bool.and_true]
         rw [sepOk_space _ hf, sepOk_space _ (tok_ne_semi_of (by decide))]
         rfl
-  | .set values ml r inner before after, hok, hinv, na, i, b => by
+  | .set values ml r inner before after, hok, hinv, hclean, na, i, b => by
     obtain ⟨hv, hin, hb, ha⟩ := hok
-    obtain ⟨hvi, hain, hab, haa, hnl, hflat⟩ := hinv
+    obtain ⟨hvi, hain, hab, haa, hnl⟩ := hinv
+    obtain ⟨hflat, hcl⟩ := hclean
     have ha' := ite_nil_ok na ha
     have hT := trailP_summ ha' (alt_ite_nil na haa) i
     have hop := recP_op_summ r
@@ -989,14 +1007,14 @@ theorem rebuildAP_summ : (e : Expr) → e.ok → e.nfInv → ∀ (na : Bool) (i 
     | cons v vs =>
       cases ml with
       | true =>
-        obtain ⟨lb, fb, tb, hbody, hfb, hlb, htb⟩ := joinNl_summ (v :: vs) hv hvi hnl (by simp) (i + 2)
+        obtain ⟨lb, fb, tb, hbody, hfb, hlb, htb⟩ := joinNl_summ (v :: vs) hv hvi hcl hnl (by simp) (i + 2)
         have hsol : Solid (joinP [FP.ws ['\n']] (rebuildAllP (v :: vs) (i + 2) false)) :=
           solid_joinP_ws _ _ (rebuildAllP_lex (v :: vs) hv _ _).2
         simp only [Expr.rebuildAP, if_true, multilineBlockP_eq, fmtP_lines hb.1]
         exact exprS_of_wrap hb hab (block_items_summ hop hbody hsol hlb hfb htb '}' (by decide) i b true) hfo hT.1 hT.2
           (fun h => h) (fun h => h)
       | false =>
-        obtain ⟨f, hj, hf⟩ := joinSp_summ (v :: vs) hv hvi (hflat rfl) (by simp) (i + 2)
+        obtain ⟨f, hj, hf⟩ := joinSp_summ (v :: vs) hv hvi hcl (hflat rfl) (by simp) (i + 2)
         simp only [Expr.rebuildAP, Bool.false_eq_true, if_false, addTriviaP, fmtP_lines hb.1]
         rw [show linesP i before ++ indentP i b ++ (recP r ++ [FP.tok ['{'], FP.ws [' ']] ++
               joinP [FP.ws [' ']] (rebuildAllP (v :: vs) (i + 2) true) ++ [FP.ws [' '], FP.tok ['}']]) =
@@ -1008,11 +1026,11 @@ theorem rebuildAP_summ : (e : Expr) → e.ok → e.nfInv → ∀ (na : Bool) (i 
         simp only [Summ.comb, List.nil_append, List.append_nil, Bool.true_and, Bool.and_true]
         rw [sepOk_space _ hf, sepOk_space _ (tok_ne_semi_of (by decide))]
         rfl
-  | .binding name value vg before after, hok, hinv, na, i, b => by
+  | .binding name value vg before after, hok, hinv, hclean, na, i, b => by
     obtain ⟨hn, hv, hb, ha⟩ := hok
     obtain ⟨hns, hvi, hnb, hab, haa, hava, hon⟩ := hinv
-    have ihv := rebuildAP_summ value hv hvi
-    have ihp := previewP_summ value hv hvi
+    have ihv := rebuildAP_summ value hv hvi hclean
+    have ihp := previewP_summ value hv hvi hclean
     have hva := ok_after hv
     have haT : Alt (value.after ++ if na = true then [] else after) := by
       cases na
@@ -1076,44 +1094,45 @@ theorem rebuildAP_summ : (e : Expr) → e.ok → e.nfInv → ∀ (na : Bool) (i 
       simp only [Bool.false_eq_true, if_false]
       rw [hlv0 hob, List.append_nil, sepOk_space _ hfv]
       rfl
-theorem joinNl_summ : (es : List Expr) → allOk es → allNfInv es → nonLastClosed es → es ≠ [] → ∀ (i : Nat),
+theorem joinNl_summ : (es : List Expr) → allOk es → allNfInv es → allInlineClean es → nonLastClosed es → es ≠ [] → ∀ (i : Nat),
     ∃ l f t, summ (joinP [.ws ['\n']] (rebuildAllP es i false)) = .lexy l f true t ∧ f ≠ semi ∧ VLead l ∧ TrailT t
-  | [], _, _, _, h, _ => absurd rfl h
-  | [e], hok, hinv, _, _, i => by
-    obtain ⟨l, f, t, hs, hf, hl, ht, _⟩ := rebuildAP_summ e hok.1 hinv.1 false i false
+  | [], _, _, _, _, h, _ => absurd rfl h
+  | [e], hok, hinv, hc, _, _, i => by
+    obtain ⟨l, f, t, hs, hf, hl, ht, _⟩ := rebuildAP_summ e hok.1 hinv.1 hc.1 false i false
     exact ⟨l, f, t, by simpa [rebuildAllP, joinP] using hs, hf, hl, ht⟩
-  | e :: e' :: r, hok, hinv, hcl, _, i => by
-    obtain ⟨l, f, t, hs, hf, hl, _, _, _, c3⟩ := rebuildAP_summ e hok.1 hinv.1 false i false
-    obtain ⟨l', f', t', hs', hf', hl', ht'⟩ := joinNl_summ (e' :: r) hok.2 hinv.2 hcl.2 (by simp) i
+  | e :: e' :: r, hok, hinv, hc, hcl, _, i => by
+    obtain ⟨l, f, t, hs, hf, hl, _, _, _, c3⟩ := rebuildAP_summ e hok.1 hinv.1 hc.1 false i false
+    obtain ⟨l', f', t', hs', hf', hl', ht'⟩ := joinNl_summ (e' :: r) hok.2 hinv.2 hc.2 hcl.2 (by simp) i
     refine ⟨l, f, t', ?_, hf, hl, ht'⟩
     simp only [rebuildAllP, joinP] at hs' ⊢
     rw [summ_append, summ_append, hs, hs', c3 hcl.1, summ_ws]
     simp only [Summ.comb, List.nil_append, List.append_nil, Bool.true_and, Bool.and_true]
     rw [show (['\n'] ++ l') = '\n' :: l' from rfl, sepOk_nl_vlead hl' f' hf']
-theorem joinSp_summ : (es : List Expr) → allOk es → allNfInv es → allFlat es → es ≠ [] → ∀ (i : Nat),
+theorem joinSp_summ : (es : List Expr) → allOk es → allNfInv es → allInlineClean es → allFlat es → es ≠ [] → ∀ (i : Nat),
     ∃ f, summ (joinP [.ws [' ']] (rebuildAllP es i true)) = .lexy [] f true [] ∧ f ≠ semi
-  | [], _, _, _, h, _ => absurd rfl h
-  | [e], hok, hinv, hfl, _, i => by
-    obtain ⟨l, f, t, hs, hf, _, _, c1, _, c3⟩ := rebuildAP_summ e hok.1 hinv.1 false i true
+  | [], _, _, _, _, h, _ => absurd rfl h
+  | [e], hok, hinv, hc, hfl, _, i => by
+    obtain ⟨l, f, t, hs, hf, _, _, c1, _, c3⟩ := rebuildAP_summ e hok.1 hinv.1 hc.1 false i true
     refine ⟨f, ?_, hf⟩
     simp only [rebuildAllP, joinP]
     rw [hs, c1 hfl.1, c3 hfl.2.1]; rfl
-  | e :: e' :: r, hok, hinv, hfl, _, i => by
-    obtain ⟨l, f, t, hs, hf, _, _, c1, _, c3⟩ := rebuildAP_summ e hok.1 hinv.1 false i true
-    obtain ⟨f', hs', hf'⟩ := joinSp_summ (e' :: r) hok.2 hinv.2 hfl.2.2 (by simp) i
+  | e :: e' :: r, hok, hinv, hc, hfl, _, i => by
+    obtain ⟨l, f, t, hs, hf, _, _, c1, _, c3⟩ := rebuildAP_summ e hok.1 hinv.1 hc.1 false i true
+    obtain ⟨f', hs', hf'⟩ := joinSp_summ (e' :: r) hok.2 hinv.2 hc.2 hfl.2.2 (by simp) i
     refine ⟨f, ?_, hf⟩
     simp only [rebuildAllP, joinP] at hs' ⊢
     rw [summ_append, summ_append, hs, hs', c1 hfl.1, c3 hfl.2.1, summ_ws]
     simp only [Summ.comb, List.nil_append, List.append_nil, Bool.true_and, Bool.and_true, if_true]
     rw [sepOk_space _ hf']
-theorem previewP_summ : (e : Expr) → e.ok → e.nfInv → ∀ (i : Nat) (p : List FP), e.previewP i = some p →
+theorem previewP_summ : (e : Expr) → e.ok → e.nfInv → e.inlineClean → ∀ (i : Nat) (p : List FP), e.previewP i = some p →
     ∃ f, summ p = .lexy [] f true [] ∧ f ≠ semi
-  | .leaf .., _, _, i, p, h => by simp [Expr.previewP] at h
-  | .set .., _, _, i, p, h => by simp [Expr.previewP] at h
-  | .binding .., _, _, i, p, h => by simp [Expr.previewP] at h
-  | .list value ml inner before after, hok, hinv, i, p, h => by
+  | .leaf .., _, _, _, i, p, h => by simp [Expr.previewP] at h
+  | .set .., _, _, _, i, p, h => by simp [Expr.previewP] at h
+  | .binding .., _, _, _, i, p, h => by simp [Expr.previewP] at h
+  | .list value ml inner before after, hok, hinv, hclean, i, p, h => by
     obtain ⟨hv, hin, hb, ha⟩ := hok
-    obtain ⟨hvi, hain, hab, haa, hnl, hflat⟩ := hinv
+    obtain ⟨hvi, hain, hab, haa, hnl⟩ := hinv
+    obtain ⟨hflat, hcl⟩ := hclean
     refine ⟨.tok ['['], ?_, tok_ne_semi (by decide)⟩
     cases value with
     | nil =>
@@ -1133,7 +1152,7 @@ theorem previewP_summ : (e : Expr) → e.ok → e.nfInv → ∀ (i : Nat) (p : L
       split at h; · cases h
       split at h; · cases h
       injection h with h; subst h
-      obtain ⟨f, hj, hf⟩ := joinSp_summ (v :: vs) hv hvi (hflat hmlf') (by simp) i
+      obtain ⟨f, hj, hf⟩ := joinSp_summ (v :: vs) hv hvi hcl (hflat hmlf') (by simp) i
       simp only [summ_append, hj, summ_cons, summ_nil, summ1]
       simp only [Summ.comb, List.nil_append, List.append_nil, Bool.true_and, Bool.and_true]
       rw [sepOk_space _ hf, sepOk_space _ (tok_ne_semi_of (by decide))]
